@@ -69,7 +69,7 @@ PROPS = {
     ),
     "C01": dict(
         theorems=["buildSite_ok", "shape_eq", "alt_in_bounds", "run_eq_spec", "unselected_irrelevant", "incomplete_contributes_nothing", "mass_le_records"],
-        nontrivial=r"^c01-(mem-noproj-pops[2-9]|mem-noproj-pops1-S?P?I|cli-.*-ok-noproj-skips|cli-.*-err)",
+        nontrivial=r"^c01-(mem-noproj-pops[2-9]|mem-noproj-pops1-S?P?I|cli-.*-ok-noproj-skips|cli-.*-err)|^ct-cli-",
         rule="exhaustive: all 26 maps of 3 columns into <= 2 populations x all 64 records over {0,1,2,missing}^3 (in-process); random: 1-4 populations of unequal size, 2-12 (thorough 40) columns, "
              "any subset listed in any order, named/unnamed mix, 1-30 (thorough 300) records over called/missing/multiallelic/ploidy-error genotypes with 'only an unselected sample is bad' forced in 10%, "
              "two contigs, extra INFO/FORMAT fields; 300 in-process + 50 CLI (thorough 3000 + 400) over vcf/vcf.gz/bcf/raw bcf; stdout compared byte for byte (precision forced to 0); "
@@ -88,7 +88,7 @@ PROPS = {
     ),
     "C08": dict(
         theorems=["classify_spec", "classify_ploidy", "classify_range", "parseGT_phasing", "parseGT_render", "parseGT_dot", "tally_none_iff", "ploidy_aborts", "error_stops_run", "unselected_ignored"],
-        nontrivial=r"^c08-cli-",
+        nontrivial=r"^(c08|ct)-cli-",
         rule="every GT string over alleles {., 0, 1, 2, 3, 10} x separators {/,|} x ploidy 1-2 (all 78) and ploidy 3 (60 sampled; thorough all 864, plus allele 62/255/2^31 in VCF), placed in a selected column, "
              "an unselected column, or with all columns selected, through the VCF text path and the BCF binary path (mixed-ploidy GT vectors with end-of-vector padding), followed by a second record; "
              "observed: exit status, stdout bytes, skipped summary, error site 'contig:pos'; non-trivial = every distinct request (finite alphabet)",
@@ -105,7 +105,7 @@ PROPS = {
     ),
     "C10": dict(
         theorems=["site_weight_one", "conservation", "run_error_iff", "strict_first", "all_or_nothing", "summary_line"],
-        nontrivial=r"^c10-cli-",
+        nontrivial=r"^(c10|ct)-cli-",
         rule="40 (thorough 400) record streams of length 1-8 x {non-strict, strict} x a fault (ploidy error in a selected column, a site that would be skipped, a corrupt POS field, a truncated line) inserted at every "
              "position 0..len (half of them in quick), with projection in a third of the streams; checked: exit status, stdout empty on failure, 'Skipped X/Y' parsed and X + mass = Y via the model, error names "
              "contig:pos of the first offending record; non-trivial = every distinct request",
@@ -119,8 +119,9 @@ PROPS = {
         exhaustive=True, assumptions=["in-process cases drive the real site::Reader through an in-memory genotype::Reader; CLI cases run the real binary on generated VCF text / BCF (noodles writer, or a hand-written BCF2.2 encoder for mixed ploidy) / BGZF", "noodles (VCF/BCF/BGZF parsing), clap and env_logger are exercised, not modelled"],
     ),
     "C12": dict(
+        model_emitted=True,
         theorems=["detect_magic", "prefix_schedule_free", "prefix_then_rest", "create_schedule_free", "pipeline_factors", "containers_agree", "pipeline_factors_decoded", "same_calls_same_output", "shape_by_lookup"],
-        nontrivial=r"^c12-same",
+        nontrivial=r"^(c12-same|ct-cli)",
         rule="12 (thorough 60) call sets (up to 3000 records, with/without projection and sample lists, one ending in a ploidy error) each run as {vcf, vcf.gz, bcf, raw bcf} x {path, stdin} x threads {1,3,16} "
              "(thorough 1,2,3,4,8,16) x BGZF layouts (one line per block, random cuts incl. mid-line, interleaved empty blocks; thorough also single block / 9 even cuts) x 2 (thorough 3) repeated executions: "
              "all stdout bytes and exit classes must be identical, and equal to the model's output; non-trivial = every distinct call set (each stands for 64-200 executions)",
